@@ -310,3 +310,5 @@ _quick("C01", "C01_slowmap", "a held key whose manager lives in the ordinary key
 _quick("C09", "C09_resync", "follower side of the resynchronisation handshake: the real ReplicationClient.InitSync against a scripted leader that answers ERR_NOT_FOUND to the follower's resume position, then the leader's position to the empty one, then the end marker of an empty transfer: the follower drops its stale hold, adopts the leader's position and consumes the transfer", ["-witness", "1"])
 
 _quick("C12", "C12_candidate", "the real ArbiterVoter.DoProposal over three members (own acceptor through DoSelfProposal, remote answers stubbed: accepted or lost); while it waits for B's or C's answer a foreign REPL_PROPOSAL numbered 0..2 above the candidate's is delivered to its own acceptor through the real remote handler: the accepted number never decreases (symbolic executor only: Request needs a connection natively)", ["-witness", "0"], reach=["end", "proposed", "foreign-accepted"], native=False)
+
+_quick("C12", "C12_candidate_commit", "the candidate's own commit round fails (remote answers lost) after its own acceptor accepted a foreign candidate's proposal and commit through the real remote handlers (or nothing foreign happened): the pending foreign commit survives and a third candidacy's proposal + commit are refused (symbolic executor only)", ["-witness", "0"], reach=["end", "foreign-committed"], native=False)
